@@ -624,10 +624,21 @@ template <class T> void interval_distance_all()
             defined = false; // shared end point with containment: documentation is ambiguous
             want = 0;
           }
-          if (!defined || (std::is_unsigned_v<T> && want < 0))
+          if (std::is_unsigned_v<T> && (want < 0 || !defined))
             continue;
           if (!vrt::begin(n.c_str(), a, b, c, d))
             continue;
+          if (!defined)
+          {
+            // the value is not judged (documentation and code disagree for a shared end point), but the call has to
+            // return: a hang or a crash here is attributed to this case by the coordinator
+            vrt::nontrivial(true);
+            T const r = fcppt::math::interval_distance(fcppt::tuple::make(static_cast<T>(a), static_cast<T>(b)),
+                                                       fcppt::tuple::make(static_cast<T>(c), static_cast<T>(d)));
+            if (r != 0)
+              vrt::count("info:" + n + ":shared_end_point_nonzero", 1);
+            continue;
+          }
           vrt::nontrivial(want < 0);
           T const r = fcppt::math::interval_distance(fcppt::tuple::make(static_cast<T>(a), static_cast<T>(b)),
                                                      fcppt::tuple::make(static_cast<T>(c), static_cast<T>(d)));
